@@ -169,6 +169,29 @@ def case_str(a, kind: str, n: int, fill: int):
         return f"{kind}.write.exc.{type(e).__name__}", {"len": n, "exc": repr(e)}
     if got != exp:
         return f"{kind}.write.bytes", {"len": n, "got_head": got[:12].hex(), "expected_head": exp[:12].hex()}
+    if kind == "octet" and n <= 70000:
+        # the value handed over as bytes / bytearray / memoryview, the SAME object written twice (top level, then nested): identical
+        # output each time and the caller's buffer untouched; a writer's get_data() taken before a later write stays what it was
+        for form in (bytes, bytearray, memoryview):
+            arg = form(val)
+            try:
+                w1 = a.ASN1Writer()
+                w1.write_octet_string(arg)
+                first = w1.get_data()
+                snap = bytes(first)
+                w2 = a.ASN1Writer()
+                with w2.push_sequence() as sq:
+                    with sq.push_set() as st_:
+                        st_.write_octet_string(arg, _tag(a, 2, False, 0))
+                        st_.write_octet_string(arg)
+                nested = bytes(w2.get_data())
+            except Exception as e:  # noqa: BLE001
+                return f"octet.write.{form.__name__}.exc.{type(e).__name__}", {"len": n, "exc": repr(e)}
+            if bytes(arg) != val:
+                return f"octet.write.{form.__name__}.argument-mutated", {"len": n, "now_len": len(bytes(arg))}
+            exp_nested = der.enc_seq(der.enc_set(der.tlv(2, False, 0, content) + exp))
+            if snap != exp or bytes(first) != exp or nested != exp_nested:
+                return f"octet.write.{form.__name__}.bytes", {"len": n, "top": snap[:12].hex(), "top_later": bytes(first)[:12].hex(), "nested_head": nested[:16].hex(), "expected_nested_head": exp_nested[:16].hex()}
     r = a.ASN1Reader(exp + SUFFIX)
     try:
         hdr = r.peek_header()
